@@ -45,6 +45,7 @@ static size_t unhex(const char *h, unsigned char *out) {
 
 static intptr_t mocked_d(double d) { return mock(box_double(d)); }
 static intptr_t mocked_i(intptr_t p) { return mock(p); }
+static intptr_t mocked_s(const char *p) { return mock(p); }
 
 int main(void) {
     static char line[1 << 17], name[64], h1[1 << 16], h2[1 << 16];
@@ -137,12 +138,15 @@ int main(void) {
                 mocked_d(A);
                 clear_mocks();
             }
-        } else if (!strncmp(line, "msgint ", 7) || !strncmp(line, "msgstr ", 7) || !strncmp(line, "msgleg ", 7) || !strncmp(line, "msgmock ", 8)) {
+        } else if (!strncmp(line, "msgint ", 7) || !strncmp(line, "msgstr ", 7) || !strncmp(line, "msgleg ", 7) || !strncmp(line, "msgmock ", 8)
+                   || !strncmp(line, "mckint ", 7) || !strncmp(line, "mckstr ", 7)) {
             /* C10: the failure message exactly as the text reporter's vprintf would expand it */
             static char kind[64], hx1[1 << 15], hx2[1 << 15], hx3[1 << 15], hx4[1 << 15];
             static unsigned char t1[1 << 14], t2[1 << 14], t3[1 << 14], t4[1 << 14];
             long long a = 0, e = 0;
             last_message[0] = 0;
+            int via_mock = !strncmp(line, "mck", 3);
+            if (via_mock) memcpy(line, "msg", 3);     /* same constraint, checked as a mock parameter */
             if (!strncmp(line, "msgint ", 7)) {
                 sscanf(line, "msgint %63s %32767s %32767s %lld %lld", kind, hx1, hx2, &a, &e);
                 unhex(hx1, t1); unhex(hx2, t2);
@@ -154,7 +158,8 @@ int main(void) {
                               : !strcmp(kind, "null") ? create_is_null_constraint()
                               : !strcmp(kind, "nonnull") ? create_not_null_constraint()
                               : !strcmp(kind, "true") ? create_is_true_constraint() : create_is_false_constraint();
-                assert_core_("f", 1, (const char *)t1, (intptr_t)a, c);
+                if (via_mock) { expect_(get_test_reporter(), "mocked_i", "f", 1, when_("p", c), (Constraint *)0); mocked_i((intptr_t)a); clear_mocks(); }
+                else assert_core_("f", 1, (const char *)t1, (intptr_t)a, c);
             } else if (!strncmp(line, "msgstr ", 7)) {
                 sscanf(line, "msgstr %63s %32767s %32767s %32767s %32767s", kind, hx1, hx2, hx3, hx4);
                 unhex(hx1, t1); unhex(hx2, t2); unhex(hx3, t3); unhex(hx4, t4);
@@ -166,7 +171,8 @@ int main(void) {
                               : !strcmp(kind, "begins") ? create_begins_with_string_constraint(ev, en)
                               : !strcmp(kind, "notbegins") ? create_does_not_begin_with_string_constraint(ev, en)
                               : !strcmp(kind, "ends") ? create_ends_with_string_constraint(ev, en) : create_does_not_end_with_string_constraint(ev, en);
-                assert_core_("f", 1, (const char *)t1, (intptr_t)(const char *)t3, c);
+                if (via_mock) { expect_(get_test_reporter(), "mocked_s", "f", 1, when_("p", c), (Constraint *)0); mocked_s((const char *)t3); clear_mocks(); }
+                else assert_core_("f", 1, (const char *)t1, (intptr_t)(const char *)t3, c);
             } else if (!strncmp(line, "msgleg ", 7)) {
                 sscanf(line, "msgleg %63s %32767s %32767s %32767s", kind, hx1, hx3, hx4);
                 unhex(hx1, t1); unhex(hx3, t3); unhex(hx4, t4);
